@@ -51,6 +51,9 @@ pub struct ImageSpec {
     /// layout gaps, with recognisable garbage: what a reused or never-zeroed cluster would expose
     #[serde(default)]
     pub stale_tail: u8,
+    /// header_length of a version 3 header if it is not the usual 112 (0 = usual)
+    #[serde(default)]
+    pub hdr_len: u16,
 }
 
 #[derive(Clone, Debug)]
@@ -92,6 +95,7 @@ impl ImageSpec {
             comp_sector_align: false,
             id_base: 0x4000_0000,
             stale_tail: 0,
+            hdr_len: 0,
         }
     }
     pub fn guest_clusters(&self) -> u64 {
@@ -433,7 +437,7 @@ pub fn build(spec: &ImageSpec) -> Result<(Vec<u8>, Truth), String> {
         compatible: 0,
         autoclear: 0,
         refcount_order: order,
-        header_length: if version == 2 { 72 } else { 112 },
+        header_length: if version == 2 { 72 } else if spec.hdr_len != 0 { spec.hdr_len as u32 } else { 112 },
         compression_type: 0,
         backing: spec.backing.as_ref().map(|s| s.as_bytes().to_vec()),
         exts,
